@@ -75,9 +75,10 @@ const (
 	ExtNone      ExtMode = iota // neither Extension nor Negotiate set: the header is ignored
 	ExtSelector                 // the deprecated Extension func(httphead.Option) bool
 	ExtNegotiate                // Negotiate func(httphead.Option) (httphead.Option, error)
+	ExtCustom                   // ws.Upgrader only: ExtensionCustom, a harness-owned parser (see CustomExtensions)
 )
 
-func (m ExtMode) String() string { return [...]string{"none", "selector", "negotiate"}[m] }
+func (m ExtMode) String() string { return [...]string{"none", "selector", "negotiate", "custom"}[m] }
 
 // ExtAct is what the configured selector/negotiator does with an offer of a given name.
 type ExtAct int
@@ -145,11 +146,94 @@ type Config struct {
 
 	ExtMode ExtMode
 	Ext     map[string]ExtPolicy
+	// ExtSelectorAlso (with ExtCustom): Extension is set as well, to a
+	// selector that takes every offer; the documentation says ExtensionCustom
+	// is used instead of it.
+	ExtSelectorAlso bool
+
+	// ProtoCustom (ws.Upgrader only): ProtocolCustom is set to the
+	// harness-owned parser CustomProtocol; "if ProtocolCustom is set, it used
+	// instead of Protocol function" (both may be set).
+	ProtoCustom     ProtoCustomMode
+	CustomProtocols []string // the names the custom parser accepts (ProtoCustomLast)
 
 	OnRequest, OnHost, OnHeader, OnBeforeUpgrade Outcome
 
 	HeaderForm HeaderForm
 	Header     []HeaderKV // extra response headers, "written in any result of handshake"
+}
+
+// ProtoCustomMode selects the behaviour of the harness-owned ProtocolCustom hook.
+type ProtoCustomMode int
+
+const (
+	ProtoCustomNone  ProtoCustomMode = iota
+	ProtoCustomLast                  // picks the LAST offered token it accepts
+	ProtoCustomFixed                 // answers FixedProtocol whatever is offered
+)
+
+func (m ProtoCustomMode) String() string { return [...]string{"none", "last", "fixed"}[m] }
+
+// FixedProtocol is what a ProtoCustomFixed hook returns.
+const FixedProtocol = "fixed.v1"
+
+// CustomProtocol is the ProtocolCustom hook as a pure function of the header
+// value (blanks around it already removed): the value is malformed (ok=false)
+// unless it is a comma list of tokens with optional SP/HT around them.
+func (c *Config) CustomProtocol(value string) (string, bool) {
+	if value == "" {
+		return "", false
+	}
+	pick := ""
+	for _, e := range strings.Split(value, ",") {
+		e = TrimBlanks(e)
+		if !IsToken(e) {
+			return "", false
+		}
+		for _, a := range c.CustomProtocols {
+			if a == e {
+				pick = e
+			}
+		}
+	}
+	if c.ProtoCustom == ProtoCustomFixed {
+		return FixedProtocol, true
+	}
+	return pick, true
+}
+
+// CustomExtensions is the ExtensionCustom hook as a pure function of the
+// header value: a value that is not a plain option list (StrictOptions) is
+// malformed; of the others every offer whose policy accepts is taken, with all
+// its parameters (ExtAcceptAll), the first (ExtAcceptFirst) or none (ExtAcceptBare).
+func (c *Config) CustomExtensions(value string) ([]Option, bool) {
+	offers, strict := StrictOptions(value)
+	if !strict {
+		return nil, false
+	}
+	var out []Option
+	for _, o := range offers {
+		p, ok := c.Ext[o.Name]
+		if !ok || !p.Accepts(ExtCustom) {
+			continue
+		}
+		a := Option{Name: o.Name}
+		switch {
+		case p.Act == ExtAcceptAll:
+			a.Params = append(a.Params, o.Params...)
+		case p.Act == ExtAcceptFirst && len(o.Params) > 0:
+			a.Params = append(a.Params, o.Params[0])
+		}
+		out = append(out, a)
+	}
+	return out, true
+}
+
+func (c *Config) extMode() ExtMode {
+	if c.Kind == HTTP && c.ExtMode == ExtCustom {
+		return ExtNone
+	}
+	return c.ExtMode
 }
 
 // AcceptsProtocol is the configured selector.
@@ -208,6 +292,10 @@ type Verdict struct {
 	// Offers are the client's offers in order.
 	OffersKnown bool
 	Offers      []Option
+	// ExtExact: ExtensionCustom decides; on success the returned and the sent
+	// extensions must be exactly ExpectExt (what the hook returned).
+	ExtExact  bool
+	ExpectExt []Option
 	// ExtLines describes each Sec-WebSocket-Extensions line in order: "fail"
 	// (a plain option list in which the negotiator objects to an offer), "ok"
 	// (plain list, no objection) or "odd" (not a plain option list).
@@ -455,7 +543,20 @@ func Classify(r *Request, c *Config) Verdict {
 
 	// ---- subprotocol
 	v.ProtocolKnown = true
-	if c.HasProtocol {
+	if c.Kind == Raw && c.ProtoCustom != ProtoCustomNone {
+		// the hook replaces the selector; it sees the lines in order until it names a protocol
+		for _, pv := range protoVals {
+			p, ok := c.CustomProtocol(pv)
+			if !ok {
+				wrong("ProtocolCustom calls the Sec-WebSocket-Protocol value malformed", 400)
+				break
+			}
+			if p != "" {
+				v.Protocol = p
+				break
+			}
+		}
+	} else if c.HasProtocol {
 		for _, pv := range protoVals {
 			toks, strict := StrictTokens(pv)
 			if !strict {
@@ -488,7 +589,7 @@ func Classify(r *Request, c *Config) Verdict {
 			kind = "odd"
 		}
 		for _, o := range opts {
-			if p, ok := c.Ext[o.Name]; ok && p.fails(c.ExtMode) {
+			if p, ok := c.Ext[o.Name]; ok && p.fails(c.extMode()) {
 				kind = "fail"
 			}
 		}
@@ -498,19 +599,29 @@ func Classify(r *Request, c *Config) Verdict {
 	if !v.OffersKnown {
 		v.Offers = nil
 	}
-	if c.ExtMode != ExtNone {
+	if c.extMode() == ExtCustom {
+		v.ExtExact = true
+		for _, ev := range extVals {
+			got, ok := c.CustomExtensions(ev)
+			if !ok {
+				wrong("ExtensionCustom calls the Sec-WebSocket-Extensions value malformed", 400)
+				break
+			}
+			v.ExpectExt = append(v.ExpectExt, got...)
+		}
+	} else if c.extMode() != ExtNone {
 		if !v.OffersKnown {
 			open("Sec-WebSocket-Extensions value is not a plain option list")
 			statuses[400] = true
 			for _, p := range c.Ext {
-				if p.fails(c.ExtMode) {
+				if p.fails(c.extMode()) {
 					statuses[p.wantStatus()] = true
 				}
 			}
 		} else {
 			var objected []string
 			for _, o := range v.Offers {
-				if p, ok := c.Ext[o.Name]; ok && p.fails(c.ExtMode) {
+				if p, ok := c.Ext[o.Name]; ok && p.fails(c.extMode()) {
 					objected = append(objected, o.Name)
 					statuses[p.wantStatus()] = true
 				}
